@@ -132,7 +132,7 @@ def gen(ctx):
         for x, v in zip(new, K.model(new)):
             verdict[x] = v
 
-    ok = lambda x: verdict[x].well_kinded and verdict[x].view_fits
+    ok = lambda x: verdict[x].well_kinded and verdict[x].view_fits and verdict[x].stated
     prims = K.prims(True)
     ask(prims)
     # ---- well-kinded stacks by depth (base parameter set), breadth first to depth 3
@@ -183,7 +183,13 @@ def gen(ctx):
             chosen += cur
     accept = [p for p in (prims if not ctx.quick else levels[1]) if ok(p)]
     autos = []
+    unstated = [x for x in dict.fromkeys(chosen) if not verdict[x].stated]
+    if unstated:
+        notes.append(f"{len(unstated)} generated stacks put a storage order over something that is not indexed by one natural number "
+                     "(outside the documented kinds, no stated violation either): left out of the matrix, e.g. " + unstated[0].desc())
     for x in dict.fromkeys(chosen):
+        if not verdict[x].stated:
+            continue
         (accept if ok(x) else autos).append(x)
     if ctx.quick and len(autos) > 24:
         by = collections.OrderedDict()
@@ -241,7 +247,9 @@ def compile_tus(ctx, items, tag):
     for k, src in enumerate(items):
         p = ctx.work.path(f"{tag}_{k}.cpp")
         p.write_text(src)
-        jobs.append((p, None, "syntax", []))
+        # every other translation unit (chosen by its text, so that a replay makes the same choice) is checked with the ISA
+        # extensions enabled: the code guarded by __SSE4_1__ / __AVX2__ / __BMI2__ must accept the same stacks
+        jobs.append((p, None, "syntax", ["-march=x86-64-v3"] if int(C.chash(src)[:2], 16) % 2 else []))
     res = C.compile_many(jobs, timeout=300)
     return [(rc == 0, C.first_diag(err) if rc != 0 else "", err[-2500:] if rc != 0 else "") for rc, err in res]
 
